@@ -82,6 +82,7 @@ type svTrace struct {
 }
 
 var svT *svTrace
+var svDir string // where goroutine dumps go
 
 var svLastLine atomic.Int64 // unix nanos of the last logged line of any tree (watchdog, independent of the mutexes)
 var svOpen atomic.Int64     // trees not yet ended
@@ -301,7 +302,7 @@ func (t *svTree) runnable(dn string) Runnable {
 				t.log("HarnessError", map[string]interface{}{"dn": dn, "err": rerr.Error()}, nil)
 			}
 		}
-		if in.beh.Sig == "healthy" || in.beh.End == "done" {
+		if (in.beh.Sig == "healthy" || in.beh.End == "done" || in.beh.End == "donetwice" || in.beh.End == "badhealthy") && in.beh.End != "baddone" {
 			t.log("Healthy", map[string]interface{}{"dn": dn, "inst": no}, func() { Signal(ctx, SignalHealthy) })
 		}
 
@@ -379,7 +380,47 @@ func (t *svTree) runnable(dn string) Runnable {
 			step++
 			k--
 		}
+		// A signal the node state does not allow: supervisor.Signal must panic (and release the tree lock while
+		// unwinding); the panic then ends this runnable through the supervisor's own recover().
+		badSignal := func(sig SignalType, name string) error {
+			var rec interface{}
+			svT.mu.Lock()
+			func() {
+				defer func() { rec = recover() }()
+				Signal(ctx, sig)
+			}()
+			free := false
+			for i := 0; i < 3000 && !free; i++ { // the supervisor's critical sections take microseconds
+				if t.sup.mu.TryRLock() {
+					t.sup.mu.RUnlock()
+					free = true
+				} else {
+					time.Sleep(time.Millisecond)
+				}
+			}
+			if !free {
+				p := svDump(svDir, t.sc.ID, "lockleak")
+				fmt.Printf("VERIF-SUPERVISOR-LOCKLEAK tree=%d dn=%s sig=%s panicked=%v dump=%s\n", t.sc.ID, dn, name, rec != nil, p)
+				os.Exit(3)
+			}
+			t.active[dn]--
+			in.exited = true
+			in.done = false // not a completed service after all
+			t.emit("BadSignal", map[string]interface{}{"dn": dn, "inst": no, "sig": name, "panicked": rec != nil})
+			svT.mu.Unlock()
+			if rec != nil {
+				panic(rec)
+			}
+			return fmt.Errorf("%s instance %d: refused signal was accepted: %w", dn, no, errScripted)
+		}
 		switch in.beh.End {
+		case "baddone":
+			return badSignal(SignalDone, "done")
+		case "badhealthy":
+			return badSignal(SignalHealthy, "healthy")
+		case "donetwice":
+			t.log("Done", map[string]interface{}{"dn": dn, "inst": no}, func() { in.done = true; Signal(ctx, SignalDone) })
+			return badSignal(SignalDone, "done")
 		case "done":
 			t.log("Done", map[string]interface{}{"dn": dn, "inst": no}, func() { in.done = true; Signal(ctx, SignalDone) })
 			for i := 0; i < in.beh.Linger; i++ {
@@ -608,6 +649,7 @@ func TestVerifSupervisor(t *testing.T) {
 	if dir == "" {
 		dir = os.TempDir()
 	}
+	svDir = dir
 	stall := 15 * time.Second
 	if v, err := strconv.Atoi(os.Getenv("VERIF_SUP_STALL")); err == nil && v > 0 {
 		stall = time.Duration(v) * time.Second
